@@ -441,6 +441,8 @@ pub fn build(quick: bool) -> Cat {
     add2(c, "SignedDuration::round", &pl.sdurs, &pl.ros, |a, o| a.round(SignedDurationRound::new().smallest(o.unit).increment(o.inc).mode(o.mode)));
     add2(c, "SignedDuration::system_until", &pl.systimes, &pl.systimes, |a, b| SignedDuration::system_until(*a, *b));
     add1(c, "SignedDuration::try_from(Duration)", &pl.udurs, |a| SignedDuration::try_from(*a));
+    add1(c, "std::Duration::try_from(SignedDuration)", &pl.sdurs, |a| std::time::Duration::try_from(*a));
+    add1(c, "std::Duration::try_from(Span)", &pl.spans, |a| std::time::Duration::try_from(*a));
 
     // =====================================================================
     // tz::Offset
